@@ -386,7 +386,8 @@ def normalize_flow(events, inst, end):
     out = [dict(e="header")]
     g2task = {}
     finished = set()
-    relays = {p["name"]: p["params"][0] for p in inst["procs"] if p["kind"] == "pcomb"}
+    relays = {p["name"]: p["params"][0] for p in inst["procs"] if p["kind"] == "pcomb" and len(p["params"]) == 1}
+    combs = {p["name"] for p in inst["procs"] if (p["kind"] == "pcomb" and len(p["params"]) >= 2) or p["kind"] == "fcomb"}
     passes = {p["name"] for p in inst["procs"] if p["kind"] == "maptotags"}
     for m in passes:
         emit_outs.add(m + ".out")
@@ -401,6 +402,8 @@ def normalize_flow(events, inst, end):
             return to + "<feed"
         if frm.rsplit(".", 1)[0] in relays and not (to in relay_in and relay_in[to] == frm.rsplit(".", 1)[0]):
             return frm + ">"
+        if frm.rsplit(".", 1)[0] in combs:      # in- and out-port of a combinator have the same name: the out-port is written "proc.port>"
+            return frm + ">"
         return frm
     for ev in events:
         e = ev["ev"]
@@ -408,7 +411,8 @@ def normalize_flow(events, inst, end):
             drv = ev["driver"]
             out.append(dict(e="wire", procs=[x for x in ev["procs"].split(",") if x],
                             driver="SINK" if drv == sinkproc else drv,
-                            sink=[x[2:] if x.startswith("p:") else x for x in ev["sink"].split(",") if x],
+                            sink=[(y + ">") if y.rsplit(".", 1)[0] in combs or y.rsplit(".", 1)[0] in relays else y
+                                  for y in [x[2:] if x.startswith("p:") else x for x in ev["sink"].split(",") if x]],
                             max=ev["max"]))
         elif e == "run.start":
             out.append(dict(e="run.start"))
